@@ -94,8 +94,21 @@ pub enum XList {
     LieHigh,
 }
 
+/// Target of a `clone_from` (built fresh, then `target.clone_from(&map)`).
+#[derive(Clone, Copy, Debug, PartialEq, Eq, Hash, Serialize, Deserialize)]
+pub enum Tgt {
+    New,
+    One,
+    SameLen,
+    Big,
+    Tomb,
+}
+pub const TARGETS: &[Tgt] = &[Tgt::New, Tgt::One, Tgt::SameLen, Tgt::Big, Tgt::Tomb];
+
 #[derive(Clone, Copy, Debug, PartialEq, Eq, Hash, Serialize, Deserialize)]
 pub enum MapOp {
+    CloneDrop,
+    CloneInto(Tgt),
     Insert(u8),
     TryInsert(u8),
     Remove(u8),
@@ -131,6 +144,7 @@ pub struct Alphabet {
     pub shrink_to_fit: bool,
     pub shrink_to: Vec<Shr>,
     pub retain: Vec<Ret>,
+    pub clone: bool,
 }
 impl Alphabet {
     pub fn full() -> Self {
@@ -149,6 +163,7 @@ impl Alphabet {
             shrink_to_fit: true,
             shrink_to: vec![Shr::Zero, Shr::Len, Shr::LenPlus1, Shr::CapMinus1],
             retain: vec![Ret::All, Ret::None, Ret::EvenIds, Ret::Alternate],
+            clone: true,
         }
     }
     /// insert / remove / clear / reserve / shrink (the state-changing core)
@@ -168,6 +183,7 @@ impl Alphabet {
             shrink_to_fit: true,
             shrink_to: vec![Shr::LenPlus1],
             retain: vec![],
+            clone: false,
         }
     }
     /// insert / remove only (C13 churn)
@@ -187,6 +203,7 @@ impl Alphabet {
             shrink_to_fit: false,
             shrink_to: vec![],
             retain: vec![],
+            clone: false,
         }
     }
 }
@@ -254,6 +271,9 @@ pub struct MapSut<K: KeyT, V: ValT> {
     pub probe_keys: Vec<K>,
     /// class of each key id (index of its hash among the plan's distinct hashes)
     pub class_of: Vec<u8>,
+    /// auxiliary collection of the operation in progress (clone target), kept
+    /// here so that it can be examined after a panic
+    pub aux: Option<Map<K, V>>,
 }
 
 impl<K: KeyT, V: ValT> MapSut<K, V> {
@@ -263,7 +283,7 @@ impl<K: KeyT, V: ValT> MapSut<K, V> {
     pub fn with_map(cfg: &MapCfg, map: Map<K, V>) -> Self {
         let class_of = cfg.class_of();
         let probe_keys = (0..cfg.universe).map(|id| K::make(id, PROBE_TOK)).collect();
-        MapSut { map, model: Vec::new(), next_tok: 1, probe_keys, class_of }
+        MapSut { map, model: Vec::new(), next_tok: 1, probe_keys, class_of, aux: None }
     }
     pub fn tok(&mut self) -> u32 {
         let t = self.next_tok;
@@ -354,7 +374,8 @@ impl<K: KeyT, V: ValT> MapSut<K, V> {
 
     /// Drop the map and check the ledgers.
     pub fn finish(self) -> Result<(), String> {
-        let MapSut { map, probe_keys, .. } = self;
+        let MapSut { map, probe_keys, aux, .. } = self;
+        drop(aux);
         drop(map);
         drop(probe_keys);
         end_of_run_checks()
@@ -596,6 +617,47 @@ impl<K: KeyT, V: ValT> MapHarness<K, V> {
             MapOp::Clear => {
                 sut.map.clear();
                 sut.model.clear();
+            }
+            MapOp::CloneDrop => {
+                sut.aux = Some(sut.map.clone());
+                let cl = sut.aux.take().unwrap();
+                chk!(c, cl == sut.map && sut.map == cl, "clone() does not compare equal to its source");
+                let mut got: Vec<ModelEntry> = cl.iter().map(|(k, v)| (k.id(), k.tok(), v.tok())).collect();
+                got.sort_unstable();
+                let mut want = sut.model.clone();
+                want.sort_unstable();
+                chk!(c, got == want, "clone() holds {:?}, reference {:?}", got, want);
+                drop(cl);
+            }
+            MapOp::CloneInto(t) => {
+                let len = sut.model.len();
+                let u = self.cfg.universe as usize;
+                let mut tgt: Map<K, V> = match t {
+                    Tgt::Big => Map::with_capacity_and_hasher_in(4 * len + 8, PlanBuild, CheckAlloc),
+                    _ => Map::default(),
+                };
+                let nkeys = match t {
+                    Tgt::New => 0,
+                    Tgt::One => 1,
+                    Tgt::SameLen => len,
+                    Tgt::Big => 2,
+                    Tgt::Tomb => u,
+                };
+                for i in 0..nkeys.min(u) {
+                    let (t1, t2) = (sut.tok(), sut.tok());
+                    tgt.insert(K::make(i as u8, t1), V::make(t2));
+                }
+                if t == Tgt::Tomb {
+                    for i in 0..u / 2 {
+                        tgt.remove(&KeyRef(i as u8));
+                    }
+                }
+                sut.aux = Some(tgt);
+                sut.aux.as_mut().unwrap().clone_from(&sut.map);
+                let tgt = sut.aux.take().unwrap();
+                chk!(c, tgt == sut.map && sut.map == tgt, "clone_from result does not compare equal to its source");
+                let old = std::mem::replace(&mut sut.map, tgt);
+                drop(old);
             }
             MapOp::Reserve(r) => {
                 let d = sut.map.verif_dump();
@@ -1043,6 +1105,12 @@ impl<K: KeyT, V: ValT> Harness for MapHarness<K, V> {
         }
         if a.from_iter {
             v.push(MapOp::FromIterSelf);
+        }
+        if a.clone {
+            v.push(MapOp::CloneDrop);
+            for &t in TARGETS {
+                v.push(MapOp::CloneInto(t));
+            }
         }
         if a.clear {
             v.push(MapOp::Clear);
